@@ -2,19 +2,15 @@ package main
 
 import (
 	"fmt"
-	"go/token"
-	"strings"
-
-	"golang.org/x/tools/go/ssa"
 )
 
 func init() {
 	register(&propDef{
 		id: "C35", run: runC35, minOblig: 22,
-		explanation: "Decides window-arithmetic guards and locking of SSH channel flow control: (sender) in WriteExtended every data packet's payload is data[:r] with r the value returned by remoteWin.reserve(minPayloadSize(maxRemotePayload, len(data))), the length field is len of that slice, and each writePacket in the loop is preceded by its reserve; minPayloadSize returns min(limit, length) without 32-bit truncation (evaluated incl. length = 2^32, 2^32+5); window.reserve returns min(request, available) and stores available minus that (evaluated on a grid incl. 0 and 2^32-1, fixed-width arithmetic), window.add rejects 32-bit overflow; (receiver) handleData rejects length > maxIncomingPayload and length != len(data) and a short header before touching the window, rejects when myWindow < length and otherwise stores myWindow-length (no underflow on the grid), credits discarded extended data (code > 1) back through adjustWindow(length); ReadExtended calls adjustWindow(n) whenever n > 0; adjustWindow records the enlarged myWindow (store dominates) BEFORE the WINDOW_ADJUST message is sent and sends exactly the consumed amount it added; (locking) window.win/closed/writeWaiters are accessed only under the window's Cond.L, channel.myWindow/myConsumed only under windowMu, sentClose/packetPool only under writeMu, and no channel send/receive happens under windowMu; (open) MaxPacketSize outside [minPacketLength, 2^31] is rejected for both OPEN and OPEN_CONFIRMATION. NOT decided: liveness (blocked writers eventually resume), byte-order integrity across schedules.",
-		assumptions: []string{"sync.Cond.Wait re-acquires L before returning"},
+		explanation: "Decides window arithmetic, effect ordering and locking of SSH channel flow control by ABSTRACT INTERPRETATION of the accounting functions on finite grids of inputs (same-package helpers interpreted in place; values identified by struct field / parameter type / callee, never by local names), compared with a specification computed by the checker: (sender) WriteExtended, run for data lengths 0..100, peer packet limits 9..32768, full/partial/1-byte window grants, reused and fresh packet buffers, data and extended data: every reserve is asked for min(maxRemotePayload, bytes left) > 0, every writePacket is preceded by its own reserve, the packet is header + exactly the reserved bytes, its length field (freshly written), message type, recipient id and extended code are right, the payload is the next unsent bytes of data in order, all bytes are sent and n = len(data); minPayloadSize returns min(limit, length) without 32-bit truncation (incl. length = 2^32, 2^32+5); window.reserve returns min(request, available), leaves available minus that (grid incl. 0 and 2^32-1, fixed-width arithmetic), waits only while the window is empty and open (exactly once until the modelled peer grants space or closes) and returns io.EOF iff closed; window.add rejects 32-bit overflow leaving the window untouched, otherwise adds and wakes waiters; (receiver) handleData, run on concrete header bytes for data / extended code 1 / other codes: a short header, length > maxIncomingPayload, length != len(data) and length > myWindow are reported as errors with myWindow untouched and nothing delivered; otherwise myWindow becomes myWindow-length (no underflow on the grid), the payload (offset = header length, length bytes) goes to pending resp. extPending, and undeliverable extended data is credited back through adjustWindow(length); compliant data never yields an error; ReadExtended reads the stream selected by the code and credits exactly the n bytes it returns through adjustWindow; adjustWindow: at every WINDOW_ADJUST send myWindow already contains the announced amount, the announced total equals what was added to myWindow, consumed bytes are conserved (pending + announced = old + adj), no zero adjust, and the window is never left at 0 with consumed bytes held back; (locking) window.win/closed/writeWaiters are accessed only under the window's Cond.L, channel.myWindow/myConsumed only under windowMu, sentClose/packetPool only under writeMu (helpers inherit the locks of all their call sites), and no channel send/receive happens under windowMu; (open) interpreting handleChannelOpen and handlePacket(OPEN_CONFIRMATION) with all other checks passing: MaxPacketSize outside [minPacketLength, 2^31] never reaches maxRemotePayload nor creates a channel, any other value is stored unchanged. NOT decided: liveness in general (only: reserve never blocks with space available, add wakes waiters, adjustWindow never strands a zero window), byte-order integrity across concurrent schedules (sequential order per call only).",
+		assumptions: []string{"sync.Cond.Wait re-acquires L before returning", "the functions modelled opaquely by the interpretation (buffer.write/Read, writePacket, sendMessage, decode/Unmarshal, newChannel) behave as their names say; they are covered by other properties' rules"},
 	})
-	tech("C35", "lockset analysis (guarded-field table) + finite-domain evaluation of unsigned window arithmetic + ordering/dominance rules")
+	tech("C35", "lockset analysis (guarded-field table, interprocedural lock inheritance) + abstract interpretation (path walker) of the window-accounting functions on finite grids with fixed-width unsigned arithmetic, effect sequences compared with an executable specification")
 }
 
 func runC35(c *Ctx) {
@@ -39,333 +35,13 @@ func runC35(c *Ctx) {
 			}
 		}
 	}
-	// ---- minPayloadSize
-	if f := c.fn("ssh", "minPayloadSize"); f != nil {
-		bad := ""
-		for _, lim := range []int64{9, 32768, 1 << 31, 1<<32 - 1} {
-			for _, ln := range []int64{0, 1, 8, 9, 10, 32768, 1 << 31, 1<<32 - 1, 1 << 32, 1<<32 + 5, 1 << 40} {
-				e := newEnv()
-				e.bind(f.Params[0], lim)
-				e.bind(f.Params[1], ln)
-				e.solve(f)
-				want := lim
-				if ln < lim {
-					want = ln
-				}
-				for _, r := range returnsOf(f) {
-					if e.reach[r.Block()] {
-						if v, ok := e.eval(r.Results[0]); !ok || v != want {
-							bad = fmt.Sprintf("minPayloadSize(%d, %d) evaluates to %d (ok=%v), want %d", lim, ln, v, ok, want)
-						}
-					}
-				}
-			}
-		}
-		c.check(bad == "", "C35.min-payload", "minPayloadSize", f, "min(limit, length) with no 32-bit truncation", bad)
-	}
-	// ---- WriteExtended structure
-	if f := c.fn("ssh", "(*channel).WriteExtended"); f != nil {
-		res := callsNamed(f, "(*ssh.window).reserve")
-		wp := callsNamed(f, "(*ssh.channel).writePacket")
-		ok := len(res) == 1 && len(wp) == 1
-		detail := ""
-		if ok {
-			rv := resultN(res[0].(*ssa.Call), 0)
-			// reserve argument
-			arg, _ := res[0].Common().Args[1].(*ssa.Call)
-			if arg == nil || short(calleeName(&arg.Call)) != "ssh.minPayloadSize" {
-				ok, detail = false, "reserve is not asked for minPayloadSize(maxRemotePayload, len(data))"
-			} else if _, fld, _, okf := fieldOf(arg.Call.Args[0]); !okf || fld != "maxRemotePayload" {
-				ok, detail = false, "the per-packet limit is not the peer's maximum packet size"
-			}
-			// todo := data[:space] with space = reserve result
-			found := false
-			allInstrs(f, func(in ssa.Instruction) {
-				if sl, isS := in.(*ssa.Slice); isS && sl.High != nil && len(rv) == 1 && stripConv(sl.High) == rv[0] && sl.Low == nil {
-					found = true
-				}
-			})
-			if !found {
-				ok, detail = false, "the payload of a data packet is not data[:reserved]"
-			}
-			if !precedes(res[0], wp[0]) {
-				ok, detail = false, "writePacket is not preceded by reserve in the same iteration"
-			}
-			h := innermostLoopHeader(wp[0].Block())
-			if h == nil || !h.Dominates(res[0].Block()) {
-				ok, detail = false, "reserve is not inside the write loop"
-			}
-		} else {
-			detail = fmt.Sprintf("%d reserve / %d writePacket calls", len(res), len(wp))
-		}
-		c.check(ok, "C35.write-reserve", "(*channel).WriteExtended", f, "each packet carries exactly the bytes reserved from the peer's window, at most maxRemotePayload", detail)
-	}
-	// ---- window.reserve arithmetic
-	if f := c.fn("ssh", "(*window).reserve"); f != nil {
-		var st *ssa.Store
-		for _, s := range storesTo(f, "window", "win") {
-			st = s
-		}
-		bad := ""
-		if st == nil {
-			bad = "no store to window.win"
-		} else {
-			for _, avail := range []int64{1, 5, 100, 1<<32 - 1} {
-				for _, req := range []int64{0, 1, 5, 99, 100, 101, 1<<32 - 1} {
-					e := newEnv()
-					e.bindField(f, "window", "win", avail)
-					e.bindField(f, "window", "closed", 0)
-					e.bind(f.Params[1], req)
-					e.solve(f)
-					want := req
-					if avail < req {
-						want = avail
-					}
-					nv, ok1 := e.eval(st.Val)
-					var rv int64
-					ok2 := false
-					for _, r := range returnsOf(f) {
-						if e.reach[r.Block()] {
-							rv, ok2 = e.eval(r.Results[0])
-						}
-					}
-					if !ok1 || !ok2 || rv != want || nv != avail-want {
-						bad = fmt.Sprintf("available=%d request=%d: returns %d (ok=%v) and stores %d (ok=%v); want %d and %d", avail, req, rv, ok2, nv, ok1, want, avail-want)
-					}
-				}
-			}
-		}
-		c.check(bad == "", "C35.reserve", "(*window).reserve", f, "reserves min(request, available) and never underflows", bad)
-	}
-	if f := c.fn("ssh", "(*window).add"); f != nil {
-		var st *ssa.Store
-		for _, s := range storesTo(f, "window", "win") {
-			st = s
-		}
-		bad := ""
-		if st == nil {
-			bad = "no store to window.win"
-		} else {
-			for _, cur := range []int64{0, 1, 1 << 31, 1<<32 - 2, 1<<32 - 1} {
-				for _, add := range []int64{1, 2, 1 << 31, 1<<32 - 1} {
-					e := newEnv()
-					e.bindField(f, "window", "win", cur)
-					e.bind(f.Params[1], add)
-					e.solve(f)
-					overflow := cur+add > 1<<32-1
-					if e.reach[st.Block()] == overflow {
-						bad = fmt.Sprintf("win=%d add=%d: overflow=%v but update reachable=%v", cur, add, overflow, e.reach[st.Block()])
-					}
-				}
-			}
-		}
-		c.check(bad == "", "C35.reserve", "(*window).add", f, "a window update that would exceed 2^32-1 is rejected", bad)
-	}
-	// ---- handleData
-	if f := c.fn("ssh", "(*channel).handleData"); f != nil {
-		var lengthV ssa.Value
-		for _, ci := range calls(f, func(n string) bool { return strings.HasSuffix(n, ").Uint32") }) {
-			if sl, ok := ci.Common().Args[len(ci.Common().Args)-1].(*ssa.Slice); ok && sl.High != nil {
-				lengthV = callValue(ci)
-			}
-		}
-		var st *ssa.Store
-		for _, s := range storesTo(f, "channel", "myWindow") {
-			st = s
-		}
-		if lengthV == nil || st == nil {
-			c.fail("C35.handle-data", "(*channel).handleData", f, "anchors not found (length field / myWindow update)")
-		} else {
-			bad := ""
-			n := 0
-			for _, L := range []int64{0, 1, 100, 32768, 32769, 1<<32 - 1} {
-				for _, W := range []int64{0, 1, 99, 100, 101, 2097152} {
-					for _, D := range []int64{0, 1, 100, 32768, 32769} { // len(data)
-						for _, maxIn := range []int64{32768} {
-							e := newEnv()
-							e.bind(lengthV, L)
-							e.bindField(f, "channel", "myWindow", W)
-							e.bindField(f, "channel", "maxIncomingPayload", maxIn)
-							// len(data): data is a slice of packet; bind every len() of a slice of the packet param with non-nil Low
-							allInstrs(f, func(in ssa.Instruction) {
-								if call, ok := in.(*ssa.Call); ok && calleeName(&call.Call) == "builtin:len" {
-									if sl, ok := call.Call.Args[0].(*ssa.Slice); ok && sl.Low != nil && sl.High == nil {
-										e.bind(call, D)
-									} else if call.Call.Args[0] == ssa.Value(f.Params[1]) {
-										e.bind(call, D+9)
-									}
-								}
-							})
-							e.bindIndexLoads(f, func(b ssa.Value) bool { return b == ssa.Value(f.Params[1]) }, 0, 94)
-							e.solve(f)
-							upd := e.reach[st.Block()]
-							want := L != 0 && L <= maxIn && L == D && W >= L
-							n++
-							if upd != want {
-								bad = fmt.Sprintf("length=%d len(data)=%d myWindow=%d: window charged=%v, specification %v", L, D, W, upd, want)
-							} else if upd {
-								if v, ok := e.eval(st.Val); !ok || v != W-L {
-									bad = fmt.Sprintf("length=%d myWindow=%d: stores %d (ok=%v), want %d", L, W, v, ok, W-L)
-								}
-							}
-						}
-					}
-				}
-			}
-			c.check(bad == "", "C35.handle-data", "(*channel).handleData", st, fmt.Sprintf("window is charged exactly for well-formed data within the window (%d cases)", n), bad)
-			// discarded extended data credited back
-			aw := callsNamed(f, "(*ssh.channel).adjustWindow")
-			okCredit := len(aw) == 1 && aw[0].Common().Args[1] == lengthV
-			c.check(okCredit, "C35.handle-data", "(*channel).handleData credit for discarded data", f, "extended data that cannot be read is credited back with its full length", "discarded extended data is not credited back to the window with its length")
-		}
-	}
-	if f := c.fn("ssh", "(*channel).ReadExtended"); f != nil {
-		aw := callsNamed(f, "(*ssh.channel).adjustWindow")
-		ok := len(aw) == 1
-		if ok {
-			// reachable exactly when n > 0 : argument is uint32(n) of the n phi
-			var pos []edge
-			arg := stripConv(aw[0].Common().Args[1])
-			pos = edgesImplying(arg, []int64{-1, 0, 1, 5}, func(d int64) bool { return d > 0 })
-			cut := edgeSet{}
-			cut.addAll(pos)
-			ok = len(pos) > 0 && !pathFromEntry(aw[0], cut)
-			// and conversely: an n > 0 edge leads to the call block directly
-			direct := false
-			for _, e := range pos {
-				if e.to() == aw[0].Block() {
-					direct = true
-				}
-			}
-			ok = ok && direct
-		}
-		c.check(ok, "C35.read-credit", "(*channel).ReadExtended", f, "every successful read of n > 0 bytes is followed by adjustWindow(n)", "bytes handed to the application are not (always) credited through adjustWindow(n)")
-	}
-	// ---- adjustWindow ordering
-	if f := c.fn("ssh", "(*channel).adjustWindow"); f != nil {
-		sm := callsNamed(f, "(*ssh.channel).sendMessage")
-		var st *ssa.Store
-		for _, s := range storesTo(f, "channel", "myWindow") {
-			st = s
-		}
-		ok := len(sm) == 1 && st != nil
-		detail := "sendMessage call or myWindow update not found"
-		if ok {
-			detail = ""
-			// amount sent
-			var sent ssa.Value
-			allInstrs(f, func(in ssa.Instruction) {
-				if s2, isS := in.(*ssa.Store); isS {
-					if _, fld, _, okf := fieldOf(s2.Addr); okf && fld == "AdditionalBytes" {
-						sent = s2.Val
-					}
-				}
-			})
-			// every path that reaches the send with a non-zero amount passes
-			// the store first: for each non-zero incoming value of the
-			// announced amount, the store's block dominates that predecessor;
-			// with a zero amount the send is unreachable (evaluated).
-			late := "the WINDOW_ADJUST message can be sent before the enlarged window is recorded in myWindow (the peer may use the granted window while handleData still checks the old value)"
-			if ph, isP := sent.(*ssa.Phi); isP {
-				for i, ev := range ph.Edges {
-					if k, isC := constInt(ev); isC && k == 0 {
-						continue
-					}
-					pred := ph.Block().Preds[i]
-					if !(st.Block() == pred || st.Block().Dominates(pred)) {
-						ok, detail = false, late
-					}
-				}
-				e := newEnv()
-				e.bind(ph, 0)
-				e.solve(f)
-				if e.reach[sm[0].Block()] {
-					ok, detail = false, "a WINDOW_ADJUST of zero bytes can be sent"
-				}
-				if !ph.Block().Dominates(sm[0].Block()) {
-					ok, detail = false, late
-				}
-			} else if !precedes(st, sm[0]) {
-				ok, detail = false, late
-			}
-			added := ssa.Value(nil)
-			if bo, isB := st.Val.(*ssa.BinOp); isB && bo.Op == token.ADD {
-				added = bo.Y
-				if isField(bo.Y, "channel", "myWindow") {
-					added = bo.X
-				}
-			}
-			same := false
-			if sent != nil && added != nil {
-				if sent == added {
-					same = true
-				}
-				if ph, isP := sent.(*ssa.Phi); isP {
-					for _, e := range ph.Edges {
-						if e == added {
-							same = true
-						}
-					}
-				}
-			}
-			if ok && !same {
-				ok, detail = false, "the amount announced in WINDOW_ADJUST is not the amount added to myWindow"
-			}
-		}
-		c.check(ok, "C35.adjust-order", "(*channel).adjustWindow", f, "myWindow is enlarged, by the amount announced, before WINDOW_ADJUST is sent", detail)
-	}
-	// ---- MaxPacketSize
-	minPL, _ := pkgConstInt(c, "ssh", "minPacketLength")
-	for _, spec := range []struct {
-		fn, typ string
-		target  func(f *ssa.Function) ssa.Instruction
-	}{
-		{"(*channel).handlePacket", "channelOpenConfirmMsg", func(f *ssa.Function) ssa.Instruction {
-			for _, s := range storesTo(f, "channel", "maxRemotePayload") {
-				return s
-			}
-			return nil
-		}},
-		{"(*mux).handleChannelOpen", "channelOpenMsg", func(f *ssa.Function) ssa.Instruction {
-			for _, ci := range callsNamed(f, "(*ssh.mux).newChannel") {
-				return ci
-			}
-			return nil
-		}},
-	} {
-		f := c.fn("ssh", spec.fn)
-		if f == nil {
-			continue
-		}
-		t := spec.target(f)
-		if t == nil {
-			c.fail("C35.max-packet", spec.fn, f, "anchor not found")
-			continue
-		}
-		bad := ""
-		for _, v := range []int64{0, minPL - 1, minPL, 32768, 1 << 31, 1<<31 + 1, 1<<32 - 1} {
-			e := newEnv()
-			e.bindField(f, spec.typ, "MaxPacketSize", v)
-			// all error tests pass
-			allInstrs(f, func(in ssa.Instruction) {
-				if bo, ok := in.(*ssa.BinOp); ok && (bo.Op == token.NEQ || bo.Op == token.EQL) && isNilConst(bo.Y) {
-					if strings.HasSuffix(bo.X.Type().String(), "error") {
-						if bo.Op == token.NEQ {
-							e.bind(bo, 0)
-						} else {
-							e.bind(bo, 1)
-						}
-					}
-				}
-			})
-			cut := e.cuts(f)
-			// reachability of the target from the first use of the field
-			got := reach([]*ssa.BasicBlock{f.Blocks[0]}, cut)[t.Block()]
-			want := v >= minPL && v <= 1<<31
-			if got != want {
-				bad = fmt.Sprintf("MaxPacketSize=%d: accepted=%v, specification %v", v, got, want)
-			}
-		}
-		c.check(bad == "", "C35.max-packet", spec.fn, t, fmt.Sprintf("peer packet sizes outside [%d, 2^31] are rejected", minPL), bad)
-	}
+	// ---- interpreted rules (c35_rules.go)
+	c35MinPayload(c)
+	c35WriteExtended(c)
+	c35Reserve(c)
+	c35Add(c)
+	c35HandleData(c)
+	c35ReadExtended(c)
+	c35AdjustWindow(c)
+	c35MaxPacket(c)
 }
